@@ -13,8 +13,14 @@
 //  (4) efficiency iterations do not increase KL (harness KL in double, each LOR once); stir::KL vs harness KL.
 //  (D1-D3) cases with a "driver" object run ML_estimate_component_based_normalisation as a whole (see check_driver below):
 //      fixed point of exact data, equality of every written file with an independent re-computation of that ML step, descent.
-#include "c20_fanref.h"
-#include "stir/IndexRange2D.h"
+//  Further parts (c20_more.h; entry-point audit of the anchor files):
+//  (R)  cases with a "reuse" object: every output / in-out container of ML_norm.h used BEFORE for another geometry (other fan size,
+//       max ring difference, scanner) or other values must give the result of a fresh container, bit by bit.
+//  (W)  cases with a "model" object: data with a wide dynamic range (compact source, exact zeros, dead detectors, extreme factors)
+//       under the clauses (2)-(4) and D1-D3; the guard of iterate_geo_norm / iterate_block_norm is mirrored as the code states it.
+//  (2D) cases with a "twod" object: the DetPairData family on one sinogram pair, same oracles.
+//  (M)  cases with a "crystal" object: multiply_crystal_factors against the enumeration of all detector pairs.
+#include "c20_more.h"
 #include "stir/recon_buildblock/ML_estimate_component_based_normalisation.h"
 #include <algorithm>
 #include <set>
@@ -26,114 +32,24 @@
 
 using namespace vf;
 using namespace stir;
-using c20::Blocks;
-using c20::FanDims;
 
 namespace {
 
-const bool no_exclude = std::getenv("VERIF_NO_EXCLUDE") != nullptr;
+using namespace c20;
 
-//! statistics of observed maxima: non-finite values (a failing case is about to be reported) are not recorded
-inline void
-smax(const std::string& key, double v)
-{
-  if (std::isfinite(v))
-    stats().maxi(key, v);
-}
-
-//! exclusions of known findings applied in the current case (each signature counted once per case under excluded_known)
-std::set<std::string> g_excluded;
-inline void
-excluded(const std::string& sig)
-{
-  if (g_excluded.insert(sig).second)
-    {
-      stats().count("excluded:" + sig);
-      if (g_excluded.size() == 1)
-        stats().excluded_known++;
-    }
-}
-const char* const SIG_F1 = "C20:F1:fan_round_trip:bins_outside_symmetric_fan";
-
-// tolerances (relative to the reference value of the entry unless said otherwise); see props.d/C20.py for the calibration
-const double TOL_APPLY = 1e-6;   // one float product + one float multiply
-const double TOL_UNAPPLY = 1e-6; // as the design states
-const double TOL_SUMS = 1e-4;    // float accumulation of <= fan*rings terms
-const double TOL_FIXED = 1e-4;   // as the design states
-const double TOL_KL = 1e-6;
-
-struct Entry
-{
-  int ra, a, rb, b; // b reduced mod n
-};
-
-//! all ordered detector pairs of the fan (both (p,q) and (q,p) appear)
-std::vector<Entry>
-fan_domain(const Blocks& B, const FanDims& F)
-{
-  std::vector<Entry> v;
-  for (int ra = 0; ra < B.nrphys; ++ra)
-    for (int a = 0; a < B.nphys; ++a)
-      for (int rb = std::max(ra - F.new_max_delta, 0); rb <= std::min(ra + F.new_max_delta, B.nrphys - 1); ++rb)
-        for (int b = a + B.nphys / 2 - F.new_half_fan; b <= a + B.nphys / 2 + F.new_half_fan; ++b)
-          v.push_back(Entry{ ra, a, rb, b % B.nphys });
-  return v;
-}
-
-std::vector<double>
-snapshot(const FanProjData& f, const std::vector<Entry>& dom)
-{
-  std::vector<double> v(dom.size());
-  for (std::size_t i = 0; i < dom.size(); ++i)
-    v[i] = f(dom[i].ra, dom[i].a, dom[i].rb, dom[i].b);
-  return v;
-}
-
-void
-set_all(FanProjData& f, const std::vector<Entry>& dom, const std::vector<double>& v)
-{
-  for (std::size_t i = 0; i < dom.size(); ++i)
-    f(dom[i].ra, dom[i].a, dom[i].rb, dom[i].b) = float(v[i]);
-}
-
-//! simple Poisson sampler driven by SplitMix (pure function of the generator state)
-long
-poisson(vf::SplitMix& g, double mean)
-{
-  if (mean <= 0)
-    return 0;
-  if (mean < 40.)
-    {
-      const double L = std::exp(-mean);
-      long k = 0;
-      double p = 1.;
-      do
-        {
-          ++k;
-          p *= g.unit();
-      } while (p > L);
-      return k - 1;
-    }
-  // normal approximation
-  const double u1 = std::max(g.unit(), 1e-300), u2 = g.unit();
-  const double z = std::sqrt(-2. * std::log(u1)) * std::cos(6.283185307179586 * u2);
-  return std::max(0L, long(std::floor(mean + std::sqrt(mean) * z + 0.5)));
-}
-
-struct Ctx
-{
-  const json& c;
-  shared_ptr<Scanner> sc;
-  shared_ptr<ProjDataInfo> pdi_sptr;
-  const ProjDataInfoCylindricalNoArcCorr* pdi;
-  Blocks B;
-  FanDims F;
-  std::vector<Entry> dom;
-};
 
 // ---- clause 1 ------------------------------------------------------------------------------------------
+struct ConvOut
+{
+  shared_ptr<ExamInfo> exam;
+  shared_ptr<ProjDataInMemory> pd; // distinct value per bin
+  std::vector<float> vals;         // the same values, flat (BinStore order)
+  std::vector<float> back;         // bins after make_fan_data_remove_gaps + set_fan_data_add_gaps into fresh projection data
+  FanProjData fan;
+};
+
 Result
-check_conversion(Ctx& X, FanProjData& fan_out)
+check_conversion(Ctx& X, ConvOut& out)
 {
   const Blocks& B = X.B;
   const FanDims& F = X.F;
@@ -152,9 +68,18 @@ check_conversion(Ctx& X, FanProjData& fan_out)
   for (long i = 0; i < N; ++i)
     vals[std::size_t(i)] = float(1 + (i * A + C) % N);
   shared_ptr<ExamInfo> exam(new ExamInfo);
-  ProjDataInMemory pd(exam, X.pdi_sptr);
+  out.exam = exam;
+  out.pd.reset(new ProjDataInMemory(exam, X.pdi_sptr));
+  ProjDataInMemory& pd = *out.pd;
   store.to_projdata(pd, vals);
 
+  // get_fan_info: the sizes every function of the family starts from (ML_norm.cxx:973-995)
+  {
+    int gr, gn, gd, gf;
+    get_fan_info(gr, gn, gd, gf, p);
+    VF_CHECK(gr == B.nr && gn == B.n && gd == F.max_delta && gf == F.fan_size, "get_fan_info: rings ", gr, ", detectors per ring ", gn, ", max ring difference ", gd,
+             ", fan size ", gf, " expected ", B.nr, ", ", B.n, ", ", F.max_delta, ", ", F.fan_size);
+  }
   FanProjData fan;
   make_fan_data_remove_gaps(fan, pd);
   VF_CHECK(fan.get_num_rings() == B.nrphys && fan.get_num_detectors_per_ring() == B.nphys, "fan data dimensions ", fan.get_num_rings(), "x",
@@ -248,6 +173,34 @@ check_conversion(Ctx& X, FanProjData& fan_out)
   if (n_gap)
     stats().cls("gap bins present");
 
+  // make_fan_sum_data(ProjData) with virtual crystals: it works in scanner indices and sums every bin of the fan (gap bins too)
+  // into both of its detectors.  Reference: a loop over the bins with get_det_pos_pair_for_bin (the function uses get_det_pair_for_bin).
+  if (B.v_tr != 0 || B.v_ax != 0)
+    {
+      Array<2, float> s1(IndexRange2D(B.nr, B.n));
+      make_fan_sum_data(s1, pd);
+      std::vector<double> ref(std::size_t(B.nr) * B.n, 0.);
+      for (int s = p.get_min_segment_num(); s <= p.get_max_segment_num(); ++s)
+        for (int ax = p.get_min_axial_pos_num(s); ax <= p.get_max_axial_pos_num(s); ++ax)
+          for (int v = p.get_min_view_num(); v <= p.get_max_view_num(); ++v)
+            for (int t = -F.half_fan; t <= F.half_fan; ++t)
+              {
+                DetectionPositionPair<> dp;
+                p.get_det_pos_pair_for_bin(dp, Bin(s, v, ax, t));
+                const double val = vals[std::size_t(store.index(s, ax, v, t))];
+                ref[std::size_t(dp.pos1().axial_coord()) * B.n + dp.pos1().tangential_coord()] += val;
+                ref[std::size_t(dp.pos2().axial_coord()) * B.n + dp.pos2().tangential_coord()] += val;
+              }
+      for (int r = 0; r < B.nr; ++r)
+        for (int a = 0; a < B.n; ++a)
+          {
+            const double want = ref[std::size_t(r) * B.n + a];
+            const double scale = std::max(want, 1.);
+            smax("max rel err fan sums", std::fabs(s1[r][a] - want) / scale);
+            VF_CHECK(std::fabs(s1[r][a] - want) <= TOL_SUMS * scale, "make_fan_sum_data(ProjData, scanner with virtual crystals) ring ", r, " det ", a, ": ", s1[r][a],
+                     " vs direct sum over the bins ", want);
+          }
+    }
   // make_fan_sum_data(ProjData) == fan sums of the fan data (no gaps: the ProjData version works in scanner indices)
   if (B.v_tr == 0 && B.v_ax == 0)
     {
@@ -270,7 +223,9 @@ check_conversion(Ctx& X, FanProjData& fan_out)
                      " vs direct sum ", want);
           }
     }
-  fan_out = fan;
+  out.fan = fan;
+  out.vals = vals;
+  out.back = back;
   return Result::pass();
 }
 
@@ -318,6 +273,8 @@ check(const json& c)
   g_excluded.clear();
   if (c.contains("driver"))
     return check_driver(c);
+  if (c.contains("crystal"))
+    return c20::check_crystal(c);
   shared_ptr<Scanner> sc;
   shared_ptr<ProjDataInfo> pdi_sptr;
   try
@@ -351,15 +308,29 @@ check(const json& c)
   stats().count("detector pairs enumerated", long(X.dom.size()));
 
   // ---- (1) conversions -------------------------------------------------------------------------------------
-  FanProjData fan0;
+  ConvOut conv;
   {
-    Result r = check_conversion(X, fan0);
+    Result r = check_conversion(X, conv);
     if (r.kind != Result::PASS)
       return r;
   }
+  const FanProjData& fan0 = conv.fan;
   const bool big = X.dom.size() > 1500000;
   const std::vector<double> base = snapshot(fan0, X.dom);
   const uint64_t seed_par = c["seed_par"].get<uint64_t>();
+  const ModelSpec M = ModelSpec::from(c);
+  if (M.wide)
+    {
+      stats().cls("model: wide dynamic range");
+      if (M.extreme_factors)
+        stats().cls("model: some geometric/block factors extreme (1e-6, 1e-3, 1e5, 1e7)");
+      if (M.dead)
+        stats().cls("model: dead detectors (all LORs zero)");
+      if (M.zero_frac > 0)
+        stats().cls("model: exact zeros on a fraction of the LORs");
+    }
+  else
+    stats().cls("model: flat (values in [1,50])");
 
   // ---- (2a) efficiencies ---------------------------------------------------------------------------------------
   DetectorEfficiencies eff(IndexRange2D(nrph, nph));
@@ -394,14 +365,14 @@ check(const json& c)
         for (int A = bd.get_min_a(); A <= bd.get_max_a(); ++A)
           for (int RB = std::max(RA, bd.get_min_rb(RA)); RB <= bd.get_max_rb(RA); ++RB)
             for (int Bq = bd.get_min_b(A); Bq <= bd.get_max_b(A); ++Bq)
-              bd(RA, A, RB, Bq) = float(c20::hreal(seed_par ^ 0xb10cULL, c20::pair_key(RA, A, RB, Bq % B.nb_tr, B.nb_tr), 0.5, 2.));
+              bd(RA, A, RB, Bq) = c20::factor_value(M, seed_par ^ 0xb10cULL, c20::pair_key(RA, A, RB, Bq % B.nb_tr, B.nb_tr));
       bfac.resize(X.dom.size());
       for (std::size_t i = 0; i < X.dom.size(); ++i)
         {
           const Entry& e = X.dom[i];
           bfac[i] = e.a / B.p_tr == e.b / B.p_tr
                         ? 1.
-                        : double(float(c20::hreal(seed_par ^ 0xb10cULL, c20::pair_key(e.ra / B.p_ax, e.a / B.p_tr, e.rb / B.p_ax, e.b / B.p_tr, B.nb_tr), 0.5, 2.)));
+                        : double(c20::factor_value(M, seed_par ^ 0xb10cULL, c20::pair_key(e.ra / B.p_ax, e.a / B.p_tr, e.rb / B.p_ax, e.b / B.p_tr, B.nb_tr)));
         }
       Result r = check_apply("apply_block_norm", X, fan0, base, bfac, [&](FanProjData& f, bool ap) { apply_block_norm(f, bd, ap); });
       if (r.kind != Result::PASS)
@@ -446,7 +417,7 @@ check(const json& c)
       stats().cls("geometric factors checked");
       c20::GeoClasses cl(nph, nrph, unit_tr, unit_ax);
       gd = GeoData3D(unit_ax, unit_tr / 2, nrph, nph);
-      auto gval = [&](int ra, int a, int rb, int b) { return float(c20::hreal(seed_par ^ 0x6e0ULL, uint64_t(cl.cls(ra, a, rb, b)), 0.5, 2.)); };
+      auto gval = [&](int ra, int a, int rb, int b) { return c20::factor_value(M, seed_par ^ 0x6e0ULL, uint64_t(cl.cls(ra, a, rb, b))); };
       for (int ra = 0; ra < unit_ax; ++ra)
         for (int a = 0; a < unit_tr / 2; ++a)
           for (int rb = ra; rb < nrph; ++rb)
@@ -462,6 +433,21 @@ check(const json& c)
   else
     stats().cls(unit_tr > 0 ? "geometric factors skipped (too large for the class table)" : "geometric factors not applicable (no even unit)");
 
+  // ---- output-argument re-use histories, 2-D family (c20_more.h) ------------------------------------------------------------------------
+  if (c.contains("reuse"))
+    {
+      c20::ReuseIn in{ conv.exam, conv.pd.get(), &fan0, &conv.back, c["gap_value"].get<float>(), &eff, geo_ok ? unit_tr : 0, geo_ok ? unit_ax : 0, geo_ok, block_ok };
+      Result r = c20::check_reuse(X, in);
+      if (r.kind != Result::PASS)
+        return r;
+    }
+  if (c.contains("twod"))
+    {
+      Result r = c20::check_2d(X, conv.exam, *conv.pd, conv.vals, M);
+      if (r.kind != Result::PASS)
+        return r;
+    }
+
   if (big)
     {
       stats().cls("large case: iterations skipped");
@@ -472,9 +458,23 @@ check(const json& c)
   // model: positive, symmetric
   std::vector<double> model(X.dom.size());
   for (std::size_t i = 0; i < X.dom.size(); ++i)
-    model[i] = double(float(c20::hreal(seed_par ^ 0x30de1ULL, c20::pair_key(X.dom[i].ra, X.dom[i].a, X.dom[i].rb, X.dom[i].b, nph), 1., 50.)));
+    model[i] = double(float(c20::model_value(M, seed_par, X.dom[i], nph, nrph, F)));
   FanProjData mfan = fan0;
   set_all(mfan, X.dom, model);
+  if (M.wide)
+    {
+      // the three kinds of factors applied to data with a wide dynamic range and exact zeros
+      std::vector<double> fac(X.dom.size());
+      for (std::size_t i = 0; i < X.dom.size(); ++i)
+        fac[i] = double(eff[X.dom[i].ra][X.dom[i].a]) * double(eff[X.dom[i].rb][X.dom[i].b]);
+      Result r = check_apply("apply_efficiencies [wide model]", X, mfan, model, fac, [&](FanProjData& f, bool ap) { apply_efficiencies(f, eff, ap); });
+      if (r.kind == Result::PASS && block_ok)
+        r = check_apply("apply_block_norm [wide model]", X, mfan, model, bfac, [&](FanProjData& f, bool ap) { apply_block_norm(f, bd, ap); });
+      if (r.kind == Result::PASS && geo_ok)
+        r = check_apply("apply_geo_norm [wide model]", X, mfan, model, gfac, [&](FanProjData& f, bool ap) { apply_geo_norm(f, gd, ap); });
+      if (r.kind != Result::PASS)
+        return r;
+    }
   auto direct_sums = [&](const std::vector<double>& v) {
     std::vector<double> s(std::size_t(nrph) * nph, 0.);
     for (std::size_t i = 0; i < X.dom.size(); ++i)
@@ -495,18 +495,56 @@ check(const json& c)
       for (int a = 0; a < nph; ++a)
         {
           const double want = ref[std::size_t(r) * nph + a];
+          if (want == 0)
+            {
+              // wide model: every LOR of this detector is exactly 0
+              VF_CHECK(sums[r][a] == 0, "make_fan_sum_data ring ", r, " det ", a, ": ", sums[r][a], " but all entries of the fan are 0");
+              continue;
+            }
           smax("max rel err fan sums", std::fabs(sums[r][a] - want) / want);
           VF_CHECK(std::fabs(sums[r][a] - want) <= TOL_SUMS * want, "make_fan_sum_data ring ", r, " det ", a, ": ", sums[r][a], " vs direct sum ", want);
         }
     DetectorEfficiencies e2 = eff;
     iterate_efficiencies(e2, sums, mfan);
+    long n_dead = 0;
     for (int r = 0; r < nrph; ++r)
       for (int a = 0; a < nph; ++a)
         {
+          if (ref[std::size_t(r) * nph + a] == 0)
+            {
+              // a detector without any data has no identifiable efficiency: iterate_efficiencies sets it to 0
+              // ("if (data_fan_sums[ra][a] == 0) efficiencies[ra][a] = 0", ML_norm.cxx:1643)
+              ++n_dead;
+              VF_CHECK(e2[r][a] == 0, "iterate_efficiencies: detector ring ", r, " det ", a, " has fan sum 0 but gets efficiency ", e2[r][a]);
+              continue;
+            }
           const double err = std::fabs(e2[r][a] - eff[r][a]) / eff[r][a];
-          smax("max rel err fixed point efficiencies", err);
+          smax(M.wide ? "max rel err fixed point efficiencies (wide model)" : "max rel err fixed point efficiencies", err);
           VF_CHECK(err <= TOL_FIXED, "iterate_efficiencies moves the exact parameters: ring ", r, " det ", a, ": ", eff[r][a], " -> ", e2[r][a]);
         }
+    stats().count("fixed point: detectors with fan sum 0 (efficiency 0 expected)", n_dead);
+    // KL(Array, Array, threshold) (template in ML_norm.h; the driver uses it on fan sums / geo data): sum of the documented term over
+    // all elements.  Here: fan sums of the data against fan sums of the bare model (both 0 for a detector without data).
+    {
+      Array<2, float> msums(IndexRange2D(nrph, nph));
+      make_fan_sum_data(msums, mfan);
+      for (double thr : { 0., c["kl_threshold"].get<double>() })
+        {
+          double want = 0, mag = 0;
+          for (int r = 0; r < nrph; ++r)
+            for (int a = 0; a < nph; ++a)
+              if (!(sums[r][a] == 0 && msums[r][a] == 0))
+                {
+                  want += c20::kl_term(double(sums[r][a]), double(msums[r][a]), thr);
+                  mag += double(sums[r][a]) + double(msums[r][a]);
+                }
+          const double got = KL(sums, msums, thr);
+          if (want > 1e-6 * mag)
+            smax("max rel dev stir::KL(Array)", std::fabs(got - want) / want);
+          VF_CHECK(std::fabs(got - want) <= TOL_KL * want + 1e-12 * mag, "stir::KL(Array<2>, Array<2>, ", thr, ") = ", got,
+                   " but the sum of the documented term over all elements is ", want);
+        }
+    }
     // version without model (model == 1): fan sums from the efficiencies and the fixed point
     {
       Array<2, float> s1(IndexRange2D(nrph, nph));
@@ -541,24 +579,59 @@ check(const json& c)
         data[i] = double(float(model[i] * gfac[i]));
       FanProjData dfan = fan0;
       set_all(dfan, X.dom, data);
-      GeoData3D measured(unit_ax, unit_tr / 2, nrph, nph), norm(unit_ax, unit_tr / 2, nrph, nph);
+      GeoData3D measured(unit_ax, unit_tr / 2, nrph, nph), norm(unit_ax, unit_tr / 2, nrph, nph), msum(unit_ax, unit_tr / 2, nrph, nph);
       make_geo_data(measured, dfan);
       iterate_geo_norm(norm, measured, mfan);
-      long n = 0;
+      // The guard of iterate_geo_norm as the code states it (ML_norm.cxx:1712-1725; nothing else documents it):
+      //    threshold = max(measured) / 10000;   factor = (measured >= threshold || measured < 10000 * model) ? measured / model : 0
+      // i.e. a class is switched off (factor 0) only if its data are below 1e-4 of the largest class AND its factor would be >= 1e4.
+      // The reference mirrors exactly this: `measured` is the argument handed to the function (so the first comparison is
+      // reproduced bit by bit), the second comparison is decided by the true factor, which is either < 100 or >= 1e5 by construction
+      // (never near 1e4); a class whose model sum is 0 has no data either and gets 0 through the same guard.
+      make_geo_data(msum, mfan);
+      const float thr = measured.find_max() / 10000.F;
+      // no data in any class (a wide model whose zeros cover the whole fan): the guard's threshold is 0 and 0/0 is computed; nothing
+      // is identifiable and nothing is demanded
+      if (!(thr > 0))
+        stats().cls("geo fixed point skipped: no data in any class");
+      long n = 0, n_small = 0, n_off = 0, n_empty = 0;
       for (int ra = 0; ra < unit_ax; ++ra)
         for (int a = 0; a < unit_tr / 2; ++a)
-          for (int rb = std::max(ra, mfan.get_min_rb(ra)); rb <= mfan.get_max_rb(ra); ++rb)
+          for (int rb = std::max(ra, mfan.get_min_rb(ra)); thr > 0 && rb <= mfan.get_max_rb(ra); ++rb)
             for (int b = mfan.get_min_b(a); b <= mfan.get_max_b(a); ++b)
               {
-                const double want = gd(ra, a, rb, b % nph);
+                const double g = gd(ra, a, rb, b % nph);
                 const double got = norm(ra, a, rb, b % nph);
-                const double err = std::fabs(got - want) / want;
-                smax("max rel err fixed point geo", err);
+                const float meas = measured(ra, a, rb, b % nph);
                 ++n;
-                VF_CHECK(err <= TOL_FIXED, "iterate_geo_norm moves the exact parameters: (ra=", ra, ",a=", a, ",rb=", rb, ",b=", b % nph, "): ", want, " -> ",
-                         got);
+                if (msum(ra, a, rb, b % nph) == 0)
+                  {
+                    ++n_empty;
+                    VF_CHECK(meas == 0 && got == 0, "iterate_geo_norm: class (ra=", ra, ",a=", a, ",rb=", rb, ",b=", b % nph, ") has model sum 0, data sum ", meas,
+                             " and gets factor ", got, " (0 expected)");
+                    continue;
+                  }
+                if (meas < thr)
+                  ++n_small;
+                const bool on = meas >= thr || g < 1e4;
+                if (!on)
+                  {
+                    ++n_off;
+                    VF_CHECK(got == 0, "iterate_geo_norm: class (ra=", ra, ",a=", a, ",rb=", rb, ",b=", b % nph, ") with data sum ", meas, " < threshold ", thr,
+                             " and true factor ", g, " >= 1e4 gets ", got, " (0 expected from the guard in the code)");
+                    continue;
+                  }
+                const double err = std::fabs(got - g) / g;
+                smax(M.wide ? "max rel err fixed point geo (wide model)" : "max rel err fixed point geo", err);
+                VF_CHECK(err <= TOL_FIXED, "iterate_geo_norm moves the exact parameters: (ra=", ra, ",a=", a, ",rb=", rb, ",b=", b % nph, "): ", g, " -> ", got,
+                         " (data sum of the class ", meas, ", largest class ", measured.find_max(), ")");
               }
       stats().count("geo parameters compared", n);
+      stats().count("geo classes with data below 1e-4 of the largest class", n_small);
+      stats().count("geo classes switched off by the guard (expected 0)", n_off);
+      stats().count("geo classes without model and data (expected 0)", n_empty);
+      if (n_small)
+        stats().cls("geo fixed point: classes below 1e-4 of the largest class present");
     }
   if (block_ok)
     {
@@ -570,6 +643,14 @@ check(const json& c)
       BlockData3D measured(B.nb_ax, B.nb_tr, B.nb_ax - 1, B.nb_tr - 1), norm(B.nb_ax, B.nb_tr, B.nb_ax - 1, B.nb_tr - 1);
       make_block_data(measured, dfan);
       iterate_block_norm(norm, measured, mfan);
+      // same guard as iterate_geo_norm (ML_norm.cxx:1734-1744), mirrored in the same way
+      BlockData3D msum(B.nb_ax, B.nb_tr, B.nb_ax - 1, B.nb_tr - 1);
+      make_block_data(msum, mfan);
+      const float thr = measured.find_max() / 10000.F;
+      // no data in any block pair (all LORs between different blocks are exact zeros of a wide model): threshold 0, 0/0; not demanded
+      if (!(thr > 0))
+        stats().cls("block fixed point skipped: no data in any block pair");
+      long n_small = 0, n_off = 0, n_empty = 0;
       // block pairs that contain at least one detector pair of the fan with ra <= rb (what make_block_data sums)
       std::vector<char> has(std::size_t(B.nb_ax) * B.nb_tr * B.nb_ax * B.nb_tr, 0);
       auto bidx = [&](int RA, int A, int RB, int Bq) { return ((std::size_t(RA) * B.nb_tr + A) * B.nb_ax + RB) * B.nb_tr + Bq; };
@@ -579,20 +660,42 @@ check(const json& c)
       long n = 0;
       for (int RA = norm.get_min_ra(); RA <= norm.get_max_ra(); ++RA)
         for (int A = norm.get_min_a(); A <= norm.get_max_a(); ++A)
-          for (int RB = std::max(RA, norm.get_min_rb(RA)); RB <= norm.get_max_rb(RA); ++RB)
+          for (int RB = std::max(RA, norm.get_min_rb(RA)); thr > 0 && RB <= norm.get_max_rb(RA); ++RB)
             for (int Bq = norm.get_min_b(A); Bq <= norm.get_max_b(A); ++Bq)
               {
                 if (!has[bidx(RA, A, RB, Bq % B.nb_tr)])
                   continue;
                 const double want = bd(RA, A, RB, Bq);
                 const double got = norm(RA, A, RB, Bq);
-                const double err = std::fabs(got - want) / want;
-                smax("max rel err fixed point block", err);
+                const float meas = measured(RA, A, RB, Bq);
                 ++n;
+                if (msum(RA, A, RB, Bq) == 0)
+                  {
+                    ++n_empty;
+                    VF_CHECK(meas == 0 && got == 0, "iterate_block_norm: blocks (", RA, ",", A, ",", RB, ",", Bq % B.nb_tr, ") have model sum 0, data sum ", meas,
+                             " and get factor ", got, " (0 expected)");
+                    continue;
+                  }
+                if (meas < thr)
+                  ++n_small;
+                if (!(meas >= thr || want < 1e4))
+                  {
+                    ++n_off;
+                    VF_CHECK(got == 0, "iterate_block_norm: blocks (", RA, ",", A, ",", RB, ",", Bq % B.nb_tr, ") with data sum ", meas, " < threshold ", thr,
+                             " and true factor ", want, " >= 1e4 get ", got, " (0 expected from the guard in the code)");
+                    continue;
+                  }
+                const double err = std::fabs(got - want) / want;
+                smax(M.wide ? "max rel err fixed point block (wide model)" : "max rel err fixed point block", err);
                 VF_CHECK(err <= TOL_FIXED, "iterate_block_norm moves the exact parameters: blocks (", RA, ",", A, ",", RB, ",", Bq % B.nb_tr, "): ", want,
-                         " -> ", got);
+                         " -> ", got, " (data sum of the block pair ", meas, ", largest ", measured.find_max(), ")");
               }
       stats().count("block parameters compared", n);
+      stats().count("block pairs with data below 1e-4 of the largest", n_small);
+      stats().count("block pairs switched off by the guard (expected 0)", n_off);
+      stats().count("block pairs without model and data (expected 0)", n_empty);
+      if (n_small)
+        stats().cls("block fixed point: block pairs below 1e-4 of the largest present");
     }
 
   // ---- (4) descent of the efficiency iterations ------------------------------------------------------------------------------
@@ -963,6 +1066,13 @@ check_driver(const json& c)
 
   // ---- true parameters and data on the fan --------------------------------------------------------------------------------------
   const uint64_t seed_par = c["seed_par"].get<uint64_t>();
+  // wide dynamic range models (compact source, exact zeros, dead detectors) are generated for the modes "fixed" and "exact" only: with
+  // Poisson data a single count in a class whose model sum is < 1e-4 counts makes the guard of iterate_geo_norm / iterate_block_norm
+  // (factor >= 1e4 and data below 1e-4 of the largest class => factor 0) switch off a class that has data, which is the behaviour the
+  // code states but leaves the KL of clause D3 infinite.
+  const ModelSpec M = ModelSpec::from(c);
+  if (M.wide)
+    stats().cls("driver: model with a wide dynamic range");
   DetectorEfficiencies eff_true(IndexRange2D(nrph, nph));
   for (int r = 0; r < nrph; ++r)
     for (int a = 0; a < nph; ++a)
@@ -978,7 +1088,7 @@ check_driver(const json& c)
                            ? 1.
                            : double(float(c20::hreal(seed_par ^ 0xb10cULL, c20::pair_key(e.ra / B.p_ax, e.a / B.p_tr, e.rb / B.p_ax, e.b / B.p_tr, B.nb_tr), 0.5, 2.)));
       truth[i] = double(eff_true[e.ra][e.a]) * double(eff_true[e.rb][e.b]) * g * b;
-      model[i] = bin_of[i] < 0 ? 0. : double(float(c20::hreal(seed_par ^ 0x30de1ULL, c20::pair_key(e.ra, e.a, e.rb, e.b, nph), 1., 50.)));
+      model[i] = bin_of[i] < 0 ? 0. : double(float(c20::model_value(M, seed_par, e, nph, nrph, F)));
     }
   double total = 0;
   if (mode == "fixed")
@@ -1041,6 +1151,10 @@ check_driver(const json& c)
   make_geo_data(measured_geo, dfan);
   BlockData3D measured_block(B.nb_ax, B.nb_tr, B.nb_ax - 1, B.nb_tr - 1);
   make_block_data(measured_block, dfan);
+  // seen, outside the statement: when NO geometric class / NO block pair has any data (tiny scanner, wide model with many exact zeros)
+  // the guard's threshold max/10000 is 0, "0 >= 0" holds and 0/0 = NaN is written.  Nothing is identifiable there: not generated.
+  if (M.wide && ((do_geo && !(measured_geo.find_max() > 0)) || (do_block && !(measured_block.find_max() > 0))))
+    return Result::reject("no data in any geometric class / block pair (degenerate wide model)");
   bool zero_sum = false;
   for (int r = 0; r < nrph; ++r)
     for (int a = 0; a < nph; ++a)
@@ -1251,6 +1365,18 @@ families()
   return f;
 }
 
+//! largest number of tangential positions <= tang for which the FanProjData constructor precondition holds for this scanner
+int
+fit_tang(const json& scanner, int tang)
+{
+  json c;
+  c["scanner"] = scanner;
+  c["pdi"]["tang"] = tang;
+  void fix_tang(json&);
+  fix_tang(c);
+  return c["pdi"]["tang"].get<int>();
+}
+
 void
 fix_tang(json& c)
 {
@@ -1388,6 +1514,11 @@ gen_driver(Src& s, int size)
   d["do_KL"] = false; // do_KL=true ends the first outer iteration with boost::bad_format_string (malformed "%1%, %2" in the last info() call):
                       // a printing defect outside the property; the KL values it prints are not part of any file
   c["driver"] = d;
+  if (d["mode"] != "poisson" && s.coin())
+    {
+      c["model"] = ModelSpec::gen(s);
+      c["model"]["extreme_factors"] = false;
+    }
   return c;
 }
 
@@ -1433,13 +1564,35 @@ enumerate(uint64_t idx, int tier, json& c)
   return true;
 }
 
+//! a case for multiply_crystal_factors: any cylindrical scanner (TOF too), any span / view mashing / TOF mashing, non-arc-corrected
+json
+gen_crystal(Src& s, int size)
+{
+  json c;
+  vg::ScannerOpts so;
+  so.max_ndet = size < 30 ? 16 : 32;
+  so.max_rings = size < 30 ? 3 : 5;
+  so.allow_tof = true;
+  so.allow_blocks = false; // the Cylindrical branch of multiply_crystal_factors; BlocksOnCylindrical is not covered by this property
+  c["scanner"] = vg::gen_scanner(s, so);
+  shared_ptr<Scanner> sc = c20::make_scanner(c["scanner"]);
+  vg::PdiOpts po;
+  po.allow_arccorr = false; // error("Can only process not arc-corrected data")
+  c["pdi"] = vg::gen_pdi(s, *sc, po);
+  c["crystal"] = { { "seed", s.seed64() }, { "global_factor", s.pick(std::vector<double>{ 1., 1., 0.5, 3.75, 1e-3 }) }, { "history", int(s.range(0, 2)) } };
+  return c;
+}
+
 json
 gen(Src& s, int size)
 {
   if (s.chance(2, 5))
     return gen_driver(s, size);
+  if (s.chance(1, 8))
+    return gen_crystal(s, size);
   json c;
   const bool family = s.chance(1, 3);
+  vg::ScannerOpts so_other;
   if (!family)
     {
       vg::ScannerOpts so;
@@ -1448,6 +1601,7 @@ gen(Src& s, int size)
       so.allow_tof = false; // the functions reject TOF data (error() at ML_norm.cxx:1063,1145); non-TOF data only
       so.allow_blocks = false;
       so.allow_tilt = true;
+      so_other = so;
       c["scanner"] = vg::gen_scanner(s, so);
       // an even number of transaxial blocks is needed for the block factors: bias towards it
       if (s.coin() && c["scanner"]["ndet"].get<int>() / c["scanner"]["tr_cryst_per_block"].get<int>() % 2 != 0)
@@ -1509,6 +1663,36 @@ gen(Src& s, int size)
   c["count_scale"] = s.pick(std::vector<double>{ 0.05, 0.3, 1., 1., 4. });
   c["iterations"] = 10;
   c["kl_threshold"] = s.pick(std::vector<double>{ 0.5, 2., 10. });
+  // ---- further parts (c20_more.h); at least a third of the cases stay as they were -----------------------------------------------
+  if (s.chance(1, 2))
+    c["model"] = ModelSpec::gen(s);
+  if (s.chance(1, 2))
+    {
+      // the geometry the containers were used for BEFORE: 0 other number of tangential positions (other fan size), 1 other max ring
+      // difference (and fan), 2 another scanner, 3 the same geometry (other values)
+      json r;
+      const int kind = int(s.pick(std::vector<int>{ 0, 0, 0, 0, 1, 1, 2, 2, 3 }));
+      json sc2 = c["scanner"];
+      if (kind == 2)
+        {
+          if (family)
+            {
+              so_other.max_ndet = 32;
+              so_other.max_rings = 4;
+              so_other.allow_tof = false;
+              so_other.allow_blocks = false;
+            }
+          sc2 = vg::gen_scanner(s, so_other);
+          r["scanner"] = sc2;
+        }
+      shared_ptr<Scanner> s2 = c20::make_scanner(sc2);
+      const int mt2 = s2->get_max_num_non_arccorrected_bins(), r2 = s2->get_num_rings();
+      r["max_delta"] = (kind == 0 || kind == 3) ? std::min(c["pdi"]["max_delta"].get<int>(), r2 - 1) : int(s.range(0, r2 - 1));
+      r["tang"] = kind == 3 ? c["pdi"]["tang"].get<int>() : fit_tang(sc2, int(s.range(1, mt2)));
+      c["reuse"] = r;
+    }
+  if (s.chance(1, 2))
+    c["twod"] = { { "seg", int(s.range(0, 11)) }, { "neg_seg", s.chance(1, 4) }, { "ax", int(s.range(0, 11)) }, { "unit", int(s.range(0, 3)) }, { "seed", s.seed64() } };
   return c;
 }
 
@@ -1552,6 +1736,102 @@ fixed_cases(int tier)
       c["kl_threshold"] = 2.;
       v.push_back(c);
     }
+  // ---- corner configurations of the further parts (always run): a container used for a WIDER fan before, for a NARROWER fan
+  // before, for another scanner before; wide-dynamic-range models with dead detectors, exact zeros and extreme factors; the 2-D
+  // family on a direct and on an oblique sinogram pair
+  {
+    auto gen_sc = [](int ndet, int rings, int cpb_tr, int bpb_tr, int cpb_ax, int bpb_ax) {
+      json j;
+      j["type"] = -1;
+      j["ndet"] = ndet;
+      j["rings"] = rings;
+      j["tr_cryst_per_block"] = cpb_tr;
+      j["tr_blocks_per_bucket"] = bpb_tr;
+      j["ax_cryst_per_block"] = cpb_ax;
+      j["ax_blocks_per_bucket"] = bpb_ax;
+      j["singles_units"] = 1;
+      j["max_tang"] = ndet - 1;
+      j["radius"] = 120.;
+      j["doi"] = 3.;
+      j["ring_spacing"] = 4.;
+      j["bin_size"] = 2.;
+      j["tilt"] = 0.;
+      j["tof_poss"] = 0;
+      j["geometry"] = "Cylindrical";
+      return j;
+    };
+    auto base = [](const json& sc, int ndet, int max_delta, int tang, uint64_t seed) {
+      json c;
+      c["scanner"] = sc;
+      c["pdi"] = { { "span", 1 }, { "max_delta", max_delta }, { "views", ndet / 2 }, { "tang", tang }, { "arccorr", false }, { "tof_mash", 0 }, { "trim", json::object() } };
+      c["seed_data"] = seed;
+      c["seed_par"] = seed + 1;
+      c["seed_noise"] = seed + 2;
+      c["gap_value"] = 0.5;
+      c["geo_unit_tr"] = 0;
+      c["geo_unit_ax"] = 0;
+      c["count_scale"] = 1.;
+      c["iterations"] = 5;
+      c["kl_threshold"] = 2.;
+      return c;
+    };
+    const json scA = gen_sc(24, 4, 4, 2, 2, 1);
+    {
+      json c = base(scA, 24, 3, 15, 31001);
+      c["reuse"] = { { "max_delta", 3 }, { "tang", 7 } }; // narrower fan before
+      c["model"] = { { "kind", "wide" }, { "e_off", 6 }, { "e_ring", 1 }, { "e_det", 3 }, { "det_shape", 0 }, { "dead", 1 }, { "zero_frac", 0.05 }, { "extreme_factors", true } };
+      c["twod"] = { { "seg", 1 }, { "neg_seg", false }, { "ax", 1 }, { "unit", 0 }, { "seed", 31005 } };
+      v.push_back(c);
+    }
+    {
+      json c = base(scA, 24, 3, 7, 32001);
+      c["reuse"] = { { "max_delta", 3 }, { "tang", 15 } }; // wider fan before
+      c["model"] = { { "kind", "wide" }, { "e_off", 8 }, { "e_ring", 0 }, { "e_det", 0 }, { "det_shape", 1 }, { "dead", 0 }, { "zero_frac", 0. }, { "extreme_factors", false } };
+      c["twod"] = { { "seg", 0 }, { "neg_seg", false }, { "ax", 2 }, { "unit", 1 }, { "seed", 32005 } };
+      v.push_back(c);
+    }
+    {
+      json c = base(scA, 24, 2, 10, 33001);
+      c["reuse"] = { { "max_delta", 1 }, { "tang", 10 } }; // other max ring difference before
+      c["model"] = { { "kind", "wide" }, { "e_off", 3 }, { "e_ring", 2 }, { "e_det", 4 }, { "det_shape", 0 }, { "dead", 2 }, { "zero_frac", 0.3 }, { "extreme_factors", true } };
+      c["twod"] = { { "seg", 2 }, { "neg_seg", true }, { "ax", 0 }, { "unit", 2 }, { "seed", 33005 } };
+      v.push_back(c);
+    }
+    {
+      // small scanner of the mMR family (one virtual crystal per transaxial block): 8 blocks x (2+1), 3 rings
+      json j;
+      j["family"] = int(Scanner::Siemens_mMR);
+      j["ndet"] = 24;
+      j["rings"] = 3;
+      j["tr_cryst_per_block"] = 3;
+      j["ax_cryst_per_block"] = 1;
+      j["tr_blocks_per_bucket"] = 2;
+      j["ax_blocks_per_bucket"] = 1;
+      j["max_tang"] = 23;
+      j["radius"] = 150.;
+      j["doi"] = 5.;
+      j["ring_spacing"] = 3.;
+      j["bin_size"] = 2.;
+      json c = base(j, 24, 2, 11, 34001);
+      c["reuse"] = { { "scanner", gen_sc(16, 2, 2, 2, 1, 1) }, { "max_delta", 1 }, { "tang", 9 } }; // another scanner before
+      c["twod"] = { { "seg", 1 }, { "neg_seg", false }, { "ax", 0 }, { "unit", 0 }, { "seed", 34005 } };
+      v.push_back(c);
+    }
+    {
+      // multiply_crystal_factors: span 3, view mashing 2, 3 TOF bins; output used before
+      json sc = gen_sc(16, 4, 2, 2, 1, 2);
+      // Scanner::check_consistency wants the coincidence window within [1/2,2] x the FOV diameter (as vg::gen_scanner does it)
+      const double w_ps = 2. * vg::make_scanner(sc)->get_max_FOV_radius() / 0.149896229;
+      sc["tof_poss"] = 9;
+      sc["tof_size"] = w_ps / 9.;
+      sc["tof_res"] = w_ps * 0.25;
+      json c;
+      c["scanner"] = sc;
+      c["pdi"] = { { "span", 3 }, { "max_delta", 3 }, { "views", 4 }, { "tang", 9 }, { "arccorr", false }, { "tof_mash", 3 }, { "trim", json::object() } };
+      c["crystal"] = { { "seed", 35001 }, { "global_factor", 3.75 }, { "history", 2 } };
+      v.push_back(c);
+    }
+  }
   return v;
 }
 
